@@ -35,7 +35,10 @@ def _registry():
 
 def _worker(job: dict, wall_timeout: float) -> dict:
     env = dict(os.environ)
-    env["PYTHONPATH"] = ROOT
+    # VERIF_REPO (default: the editable install = /repo) lets the seeded-change runner point the same checks
+    # at a scratch worktree; registered commands never set it.
+    alt = os.environ.get("VERIF_REPO")
+    env["PYTHONPATH"] = ROOT + (os.pathsep + alt if alt else "")
     env.setdefault("PYTHONHASHSEED", "0")
     env["OMP_NUM_THREADS"] = "1"
     env["OPENBLAS_NUM_THREADS"] = "1"
